@@ -17,6 +17,7 @@ import (
 	"strconv"
 	"strings"
 	"sync"
+	"sync/atomic"
 	"syscall"
 	"time"
 
@@ -94,6 +95,8 @@ func unmarshalTargets() []func() interface{} {
 		func() interface{} { var v ion.SymbolToken; return &v },
 		func() interface{} { var v *string; return &v },
 		func() interface{} { var v []string; return &v },
+		func() interface{} { var v interface{}; v = &v; return v },                 // an interface holding a pointer to itself
+		func() interface{} { type node struct{ Next interface{} }; n := &node{}; n.Next = n; return n }, // a target that contains itself
 		func() interface{} { var v [4]NamedU8; return &v },
 		func() interface{} { var v []NamedU8; return &v },
 		func() interface{} { var v map[NamedKey]int; return &v },
@@ -357,7 +360,7 @@ func c06Judge(c *Ctx, in hostileInput, res hostileResult) {
 		lim *= uint64(len(unmarshalTargets()))
 	}
 	if res.Alloc > lim {
-		c.Violate("allocation", "alloc-out-of-proportion:"+res.Where, fmt.Sprintf("class=%s input=%s (%d bytes) :: %s allocated %d bytes (bound %d)", in.class, k.Shown, len(in.data), res.Where, res.Alloc, lim), k, nil)
+		c.Violate("allocation", "alloc-out-of-proportion:"+in.class+":"+res.Where, fmt.Sprintf("class=%s input=%s (%d bytes) :: %s allocated %d bytes (bound %d)", in.class, k.Shown, len(in.data), res.Where, res.Alloc, lim), k, nil)
 	}
 	if res.CPUms > 10000 {
 		c.Violate("cpu", "cpu-budget:"+in.class, fmt.Sprintf("class=%s input=%s :: %d ms CPU for %d bytes", in.class, k.Shown, res.CPUms, len(in.data)), k, nil)
@@ -389,6 +392,8 @@ func procCPUSeconds(pid int) float64 {
 	return -1
 }
 
+var c06Hangs int32
+
 // runBatch runs one batch in child workers, restarting after a death; calls judge for each input.
 func c06RunBatch(c *Ctx, id int, inputs []hostileInput) {
 	dir := filepath.Join(c.Root, "out", "c06")
@@ -405,6 +410,11 @@ func c06RunBatch(c *Ctx, id int, inputs []hostileInput) {
 	defer os.Remove(path)
 	start := 0
 	for start < len(inputs) {
+		if atomic.LoadInt32(&c06Hangs) >= 6 {
+			// every further hang costs 30 s of CPU: six recorded ones decide the run
+			c.Obs("inputs_abandoned_after_six_hangs", int64(len(inputs)-start))
+			return
+		}
 		errPath := filepath.Join(dir, fmt.Sprintf("batch-%d.stderr", id))
 		ef, _ := os.Create(errPath)
 		cmd := exec.Command(os.Args[0], "worker", "c06", path, strconv.Itoa(start))
@@ -481,6 +491,7 @@ func c06RunBatch(c *Ctx, id int, inputs []hostileInput) {
 		c.Eval(1)
 		switch {
 		case hung:
+			atomic.AddInt32(&c06Hangs, 1)
 			c.Violate("termination", "cpu-budget-exceeded:"+in.class, fmt.Sprintf("class=%s input=%s :: more than 30 s of CPU on %d bytes without finishing", in.class, k.Shown, len(in.data)), k, nil)
 		case strings.Contains(tail, "fatal error:") || strings.Contains(tail, "stack exceeds") || strings.Contains(tail, "out of memory"):
 			msg := "fatal runtime error"
@@ -530,6 +541,13 @@ func hostileDocs(r *rand.Rand) []hostileInput {
 	add := func(class string, b []byte) { out = append(out, hostileInput{b, class}) }
 	bin := func(parts ...[]byte) []byte {
 		d := append([]byte{}, refbin.IVM...)
+		for _, p := range parts {
+			d = append(d, p...)
+		}
+		return d
+	}
+	bin0 := func(parts ...[]byte) []byte { // concatenation without the version marker
+		var d []byte
 		for _, p := range parts {
 			d = append(d, p...)
 		}
@@ -645,6 +663,51 @@ func hostileDocs(r *rand.Rand) []hostileInput {
 		add("extreme-sid", []byte(fmt.Sprintf("$%d a::$%d {$%d:1}", n, n, n)))
 		add("extreme-import", []byte(fmt.Sprintf("$ion_symbol_table::{imports:[{name:\"big\",version:1,max_id:%d}],symbols:[\"q\"]} $%d $10 q $ion_symbol_table::{imports:$ion_symbol_table,symbols:[\"w\"]} $%d w", n>>1, n>>1, n>>1)))
 		add("extreme-import", []byte(fmt.Sprintf("$ion_symbol_table::{imports:[{name:\"a\",version:%d,max_id:%d},{name:\"a\",version:3,max_id:%d}]} $10 $11", n, n>>2, n>>2)))
+	}
+	// annotation wrappers whose annotation-length field says more than the wrapper holds, followed by a
+	// value with an enormous declared length (unsigned length arithmetic)
+	for _, wl := range []byte{3, 4, 5, 9, 13} {
+		for _, al := range []uint64{uint64(wl), uint64(wl) + 1, 15, 127, 1 << 14, 1 << 35, 1<<63 - 1, 1 << 63, ^uint64(0) - 30, ^uint64(0)} {
+			for _, follow := range [][]byte{bin0([]byte{0x2E}, vu(^uint64(0)-23)), bin0([]byte{0x8E}, vu(1<<62)), {0x21, 0x01}, bin0([]byte{0xBE}, vu(^uint64(0)))} {
+				body := append(vu(al), bytes.Repeat([]byte{0x80}, 15)...)
+				w := append([]byte{0xE0 | wl}, body...)
+				junk := bytes.Repeat([]byte{1, 2, 3, 4, 5}, 6)
+				if al <= 64 {
+					// the annotation ids run on past the end the wrapper declares
+					full := append(append([]byte{0xE0 | wl}, vu(al)...), bytes.Repeat([]byte{0x80}, int(al))...)
+					add("annotation-length-vs-wrapper", bin([]byte{0xB0 | (wl + 1)}, full, follow, junk))
+					add("annotation-length-vs-wrapper", bin(full, follow, junk))
+					add("annotation-length-vs-wrapper", bin([]byte{0xD0 | (wl + 2)}, []byte{0x84}, full, follow, junk))
+					add("annotation-length-vs-wrapper", bin([]byte{0xC0 | (wl + 1)}, full[:1+int(wl)], full[1+int(wl):], follow, junk))
+				}
+				add("annotation-length-vs-wrapper", bin([]byte{0xB0 | (wl + 1)}, w[:1+int(wl)], follow, junk))
+				add("annotation-length-vs-wrapper", bin(w[:1+int(wl)], follow, junk))
+				add("annotation-length-vs-wrapper", bin([]byte{0xD0 | (wl + 2)}, []byte{0x84}, w[:1+int(wl)], follow, junk))
+			}
+		}
+	}
+	// long chains of appending symbol tables (every table imports the one before it)
+	for _, n := range []int{50, 1500} {
+		var sb strings.Builder
+		sb.WriteString("$ion_symbol_table::{symbols:[\"s0\"]} $10 ")
+		for i := 1; i <= n; i++ {
+			fmt.Fprintf(&sb, "$ion_symbol_table::{imports:$ion_symbol_table,symbols:[\"s%d\"]} ", i)
+		}
+		fmt.Fprintf(&sb, "$10 $%d", 10+n)
+		if n < 1000 {
+			add("lst-append-chain", []byte(sb.String()))
+		}
+		e := refbin.NewEncoder(nil, nil)
+		e.AppendIVM()
+		T := model.T
+		e.Out = append(e.Out, e.Value(model.StructV(model.ListV(model.StrV("s0")).WithField(T("symbols"))).WithAnn(T("$ion_symbol_table")))...)
+		for i := 1; i <= n; i++ {
+			e.Out = append(e.Out, e.Value(model.StructV(model.SymV(T("$ion_symbol_table")).WithField(T("imports")), model.ListV(model.StrV(fmt.Sprintf("s%d", i))).WithField(T("symbols"))).WithAnn(T("$ion_symbol_table")))...)
+		}
+		e.Out = append(e.Out, 0x71, 0x0A)
+		if e.Err == nil {
+			add("lst-append-chain", e.Out)
+		}
 	}
 	// ids high inside a range that an import merely reserves, in every position an id can occur:
 	// legal, and nothing may be sized by the numeric value of an id
